@@ -283,8 +283,7 @@ func extBufWrite(m *Machine, c *Config, call ssa.CallInstruction, args []Value) 
 	if !ok {
 		m.unsup("Buffer.Write of %T", args[1])
 	}
-	tok := m.tokenOfSlice(c.st, sl)
-	c.st.mem[cellKey{obj, "#content"}] = app(SStrm, "snoc", cur, tok)
+	c.st.mem[cellKey{obj, "#content"}] = m.appendTokens(c.st, cur, sl)
 	return []extOutcome{{cond: TTrue, res: []Value{sl.Len, Sym("err.nil", SErr)}}}
 }
 
@@ -300,13 +299,28 @@ func extBufBytes(m *Machine, c *Config, call ssa.CallInstruction, args []Value) 
 	return []extOutcome{{cond: TTrue, res: []Value{r}}}
 }
 
-// tokenOfSlice names the wire token a byte slice stands for.  Slices produced
-// by string([]rune) conversions carry a TRunes token; other slices are TRaw.
-func (m *Machine) tokenOfSlice(st *State, sl *SliceV) Term {
-	if t, ok := m.sliceTok[sl.Obj]; ok {
-		return t
+// appendTokens appends the tokens a written byte slice stands for: literal
+// octets for short constant-length slices, a TRunes window for UTF-8 produced
+// from a rune slice, the declared token of a contracted leaf encoder, and a
+// byte window of the backing sequence otherwise.
+func (m *Machine) appendTokens(st *State, strm Term, sl *SliceV) Term {
+	if t, ok := m.sliceTok[sl.Obj]; ok && sl.Off.IsConst() && sl.Off.C.Sign() == 0 {
+		return app(SStrm, "snoc", strm, t)
 	}
-	return app(STok, "TRaw", m.packTerm(st, sl, SBytes))
+	if sl.Len.IsConst() && sl.Len.C.Int64() <= 8 {
+		arr := m.loadArr(st, sl.Obj)
+		for i := int64(0); i < sl.Len.C.Int64(); i++ {
+			strm = app(SStrm, "snoc", strm, app(STok, "TByte", Select(arr, BVAdd(sl.Off, BVLitI(i, 64)))))
+		}
+		return strm
+	}
+	var full Term
+	if f, ok := m.objFull[sl.Obj]; ok {
+		full = f
+	} else {
+		full = app(SBytes, "mkbytes", m.loadArr(st, sl.Obj), BVAdd(sl.Off, sl.Len))
+	}
+	return app(SStrm, "snoc", strm, app(STok, "TWin", full, sl.Off, BVAdd(sl.Off, sl.Len)))
 }
 
 // io.Writer.Write(p): 0 <= n <= len(p); @W' = @W || err != nil || n < len(p);
@@ -323,9 +337,8 @@ func extWriterWrite(m *Machine, c *Config, call ssa.CallInstruction, args []Valu
 	out := m.ghost(st, "@out").(Term)
 	w := m.ghost(st, "@W").(Term)
 	full := Eq(n, sl.Len)
-	tok := m.tokenOfSlice(st, sl)
 	nout := m.syms.fresh("@out", SStrm)
-	st.assume(Implies(full, Eq(nout, app(SStrm, "snoc", out, tok))))
+	st.assume(Implies(full, Eq(nout, m.appendTokens(st, out, sl))))
 	st.ghost["@out"] = nout
 	st.ghost["@W"] = Or(w, Not(Eq(e, Sym("err.nil", SErr))), Not(full))
 	st.ghost["@nwrites"] = BVAdd(m.ghostOr(st, "@nwrites", BVLitI(0, 64)), BVLitI(1, 64))
@@ -340,3 +353,27 @@ func (m *Machine) ghostOr(st *State, name string, def Term) Term {
 }
 
 var _ = fmt.Sprintf
+
+func extFP1(op string) extHandler {
+	return func(m *Machine, c *Config, call ssa.CallInstruction, args []Value) []extOutcome {
+		f := args[0].(Term)
+		return []extOutcome{{cond: TTrue, res: []Value{app(f.Sort, op, f)}}}
+	}
+}
+
+func extFPPred(op string) extHandler {
+	return func(m *Machine, c *Config, call ssa.CallInstruction, args []Value) []extOutcome {
+		return []extOutcome{{cond: TTrue, res: []Value{app(SBool, op, args[0].(Term))}}}
+	}
+}
+
+// math.IsInf(f, sign): sign > 0 +Inf, sign < 0 -Inf, sign == 0 either
+func extIsInf(m *Machine, c *Config, call ssa.CallInstruction, args []Value) []extOutcome {
+	f := args[0].(Term)
+	sg := args[1].(Term)
+	zero := BVLitI(0, 64)
+	inf := app(SBool, "fp.isInfinite", f)
+	pos := app(SBool, "fp.isPositive", f)
+	r := And(inf, Or(Eq(sg, zero), And(BVSgt(sg, zero), pos), And(BVSlt(sg, zero), Not(pos))))
+	return []extOutcome{{cond: TTrue, res: []Value{r}}}
+}
